@@ -6,7 +6,7 @@ import ast
 from ..lin import Lin, Infeasible
 from ..avals import *   # noqa
 from ..avals import value_tags
-from ..decide import Runs, need_ge0, need_eq0, definite, soft, iterations
+from ..decide import benign_unknown, Runs, need_ge0, need_eq0, definite, soft, iterations
 from ..report import Ob, PROVED, REFUTED, UNDECIDED, func_where, ASSUMPTIONS, Failure
 from ..model import norm_text, AnalysisError
 from ..units import exc_key
@@ -364,7 +364,7 @@ def presence_ob(prog, res, dfi):
         return fails
     return runs.judge('C02.c', 'an element is emitted (and its bit set) for numeric zero values, and not for absent or empty values',
                       func_where(dfi), "if message.get('DE' + str(bit)) or message.get('DE' + str(bit)) == 0", chk, rule='C02.c.presence',
-                      unknown_ok=lambda u: True)
+                      unknown_ok=benign_unknown)
 
 
 def icc_tag_ob(prog, res):
@@ -431,4 +431,4 @@ def icc_tag_ob(prog, res):
                     fails.append(definite(f'a one-byte tag is assumed after testing only {sorted(lits)}', keys[0].node))
         return fails
     return runs.judge('C02.e', 'ICC TLV tags are two bytes exactly for first bytes 9F and 5F, one byte otherwise', func_where(fi),
-                      "if field_tag in TWO_BYTE_TAG_PREFIXES", chk, rule='C02.e.icc_tags', unknown_ok=lambda u: True)
+                      "if field_tag in TWO_BYTE_TAG_PREFIXES", chk, rule='C02.e.icc_tags', unknown_ok=benign_unknown)
